@@ -12,6 +12,6 @@ Definition z_div_eucl := Z.div_eucl.
 Definition z_ltb := Z.ltb.
 Definition z_eqb := Z.eqb.
 
-Extraction "../ocaml/model.ml"
+Extraction "../ocaml/c14/model.ml"
   z_add z_mul z_opp z_div_eucl z_ltb z_eqb
   rrun rinit.
